@@ -43,6 +43,7 @@ package secp256k1
 //@   ensures x [C02]: fv(e.x) == rcbX(old(fv(u.x)), old(fv(u.y)), old(fv(u.z)), old(fv(v.x)), old(fv(v.y)), old(fv(v.z)))
 //@   ensures y [C02]: fv(e.y) == rcbY(old(fv(u.x)), old(fv(u.y)), old(fv(u.z)), old(fv(v.x)), old(fv(v.y)), old(fv(v.z)))
 //@   ensures z [C02]: fv(e.z) == rcbZ(old(fv(u.x)), old(fv(u.y)), old(fv(u.z)), old(fv(v.x)), old(fv(v.y)), old(fv(v.z)))
+//@   derives sum [C02]: imp(old(inv(u)) && old(inv(v)), inv(e) && pt(e) == gadd(old(pt(u)), old(pt(v)))) by rcb_add(old(fv(u.x)), old(fv(u.y)), old(fv(u.z)), old(fv(v.x)), old(fv(v.y)), old(fv(v.z)))
 //@   modifies *e
 //@   returns e
 
@@ -53,6 +54,7 @@ package secp256k1
 //@   ensures x [C02]: fv(e.x) == dblX(old(fv(u.x)), old(fv(u.y)), old(fv(u.z)))
 //@   ensures y [C02]: fv(e.y) == dblY(old(fv(u.x)), old(fv(u.y)), old(fv(u.z)))
 //@   ensures z [C02]: fv(e.z) == dblZ(old(fv(u.x)), old(fv(u.y)), old(fv(u.z)))
+//@   derives dbl [C02]: imp(old(inv(u)), inv(e) && pt(e) == gadd(old(pt(u)), old(pt(u)))) by rcb_dbl(old(fv(u.x)), old(fv(u.y)), old(fv(u.z)))
 //@   modifies *e
 //@   returns e
 
